@@ -552,14 +552,22 @@ def _build_lf(rec, scratch):
     lf_kw = dict(rec.get("lf_kw", {}))
     lf = sm.make_likelihood_function(tree, **lf_kw)
     if isinstance(lf_kw.get("loci"), list):
-        # one alignment per locus: the second locus is the first one read backwards by columns
-        alns = [aln] + [aln[:: -1] if False else aln.take_positions(list(range(len(aln)))[::-1]) for _ in lf_kw["loci"][1:]]
+        # one DIFFERENT alignment per locus (rec["alns"]; older recipes: the first one read backwards by columns)
+        if rec.get("alns"):
+            alns = [aln] + [_build_coll(a, scratch) for a in rec["alns"]]
+        else:
+            alns = [aln] + [aln.take_positions(list(range(len(aln)))[::-1]) for _ in lf_kw["loci"][1:]]
         lf.set_alignment(alns)
     else:
         lf.set_alignment(aln)
     if rec.get("name"):
         lf.set_name(rec["name"])
     for rule in rec.get("rules", []):
+        rule = dict(rule)
+        if rule.get("loci") == "EACH":
+            from cogent3.recalculation.scope import EACH
+
+            rule["loci"] = EACH
         lf.set_param_rule(**rule)
     if rec.get("time_het"):
         lf.set_time_heterogeneity(**rec["time_het"])
@@ -852,7 +860,7 @@ def _rand_newick(rng, tips, lengths=True, internal_names=False, root_name=False)
         grp, nodes = nodes[:take], nodes[take:]
         name = ""
         if internal_names and rng.random() < 0.7 and (nodes or root_name):
-            name = f"n{k}"
+            name = rng.choice([f"n{k}", f"n{k}", f"'clade {k}'", f"grp_{k}", f"'a b_{k}'"])
             k += 1
         lab = "(" + ",".join(grp) + ")" + name
         if lengths and nodes:
@@ -863,9 +871,16 @@ def _rand_newick(rng, tips, lengths=True, internal_names=False, root_name=False)
 
 def gen_tree(rng, safe=False):
     ntip = rng.randint(2, 7)
-    tipnames = rng.choice([["a", "b", "c", "d", "e", "f", "g"], ["Human", "Chimp", "Mouse", "Rat", "Dog", "Cow", "Pig"], ["t_1", "t-2", "t.3", "t4", "t5", "t6", "t7"]])[:ntip]
+    tipnames = rng.choice([
+        ["a", "b", "c", "d", "e", "f", "g"],
+        ["Human", "Chimp", "Mouse", "Rat", "Dog", "Cow", "Pig"],
+        ["t_1", "t-2", "t.3", "t4", "t5", "t6", "t7"],
+        # names with spaces / underscores / both (none of them contains a character that breaks the newick on HEAD)
+        ["Homo sapiens", "Pan troglodytes", "Mus_musculus", "rat x_1", "dog", "Bos taurus", "pig"],
+    ])[:ntip]
     lengths = rng.random() < 0.8
-    tips = [f"{t}:{rng.choice([0.1, 0.5, 1.0, 2.0, 0.333, 7])}" if lengths else t for t in tipnames]
+    q = lambda t: f"'{t}'" if " " in t else t
+    tips = [f"{q(t)}:{rng.choice([0.1, 0.5, 1.0, 2.0, 0.333, 7])}" if lengths else q(t) for t in tipnames]
     root_name = (not safe) and rng.random() < 0.12
     nw = _rand_newick(rng, tips, lengths, internal_names=root_name or rng.random() < 0.5, root_name=root_name)
     named_root = not nw.endswith(");")
@@ -902,9 +917,10 @@ def gen_tree(rng, safe=False):
         elif r < 0.73:
             ops.append(["set_len", rng.choice(tipnames), rng.choice([0.0, 1.125, 5])])
         elif r < 0.78:
-            newname = rng.choice(["x1", "new name", "x1", "new name", "a:b", "w(1)"]) if not safe else "x1"
+            newname = rng.choice(["x1", "new name", "clade one", "two  spaces x", "under_score", "mix ed_name", "a:b", "w(1)", "p;q", "r[s", "u]v"]) if not safe else rng.choice(["x1", "new name"])
             ops.append(["rename", rng.choice(tipnames), newname])
-            if newname in ("a:b", "w(1)"):
+            if any(ch in newname for ch in ":();[]"):
+                # the characters that really break the exported newick on HEAD (TreeParseError); space, underscore and quotes do not
                 ops.append(["special_name"])
             tipnames = None
             break
@@ -921,6 +937,8 @@ def gen_tree(rng, safe=False):
             named_root = True
     if named_root:
         extra.append("named_root")
+    if " " in nw or any(o[0] == "rename" and " " in o[2] for o in ops):
+        extra.append("space_name")
     return dict(family="tree", newick=nw, ops=ops, hclass=hist_class(ops, extra))
 
 
@@ -1206,16 +1224,28 @@ def gen_lf(rng, optimise=False):
         kw = dict(with_rate=True, distribution="gamma")
         lf_kw = dict(bins=2)
         extra.append("bins")
-    elif model in ("F81", "HKY85", "JC69", "GTR") and q < 0.4:
-        lf_kw = dict(loci=["l1", "l2"])
+    elif model in ("F81", "HKY85", "JC69", "GTR") and q < 0.45:
+        # locus names NOT in alphabetical order, a different alignment on each locus, locus-scoped parameters
+        lnames = rng.choice([["nuclear", "mito"], ["z_loc", "a_loc"], ["l2", "l1"], ["x", "m", "b"]])
+        lf_kw = dict(loci=lnames)
+        alns = []
+        for _ in lnames[1:]:
+            n2 = rng.choice([10, 15, 21])
+            alns.append(dict(family="coll", kind=aln["kind"], moltype="dna", seqs={nm: rtext(rng, "dna", n2) for nm in names}, offsets=None, info=None, features=[], ops=[]))
         extra.append("loci")
+        par = {"HKY85": "kappa", "GTR": "A/G"}.get(model)
+        if par and not any(r_["par_name"] == par for r_ in rules):
+            rules.append(dict(par_name=par, loci="EACH"))
+            for j, ln in enumerate(lnames):
+                rules.append(dict(par_name=par, locus=ln, init=[2.0, 5.0, 0.5][j]))
+            extra.append("locus_scoped")
     elif model in ("HKY85", "TN93", "GTR") and q < 0.6 and not any(r_["par_name"] == "kappa" for r_ in rules):
         time_het = dict(edge_sets=[dict(edges=[names[0], names[1]])], is_independent=rng.random() < 0.5)
         extra.append("time_het")
     if model in ("F81", "JC69") and rng.random() < 0.15:
         rules.append(dict(par_name="length", edge=names[-1], init=0.4, lower=0.01, upper=5.0))
         extra.append("bounded")
-    return dict(family="lf", model=model, kw=kw, tree=tree, aln=aln, rules=rules, lf_kw=lf_kw, time_het=time_het, name=rng.choice([None, "my lf"]), optimise=(5 if optimise else 0), ops=[], hclass="+".join(sorted(set(extra + (["optimised"] if optimise else [])))))
+    return dict(family="lf", model=model, kw=kw, tree=tree, aln=aln, alns=(alns if "loci" in extra else None), rules=rules, lf_kw=lf_kw, time_het=time_het, name=rng.choice([None, "my lf"]), optimise=(5 if optimise else 0), ops=[], hclass="+".join(sorted(set(extra + (["optimised"] if optimise else [])))))
 
 
 def gen_nc(rng):
